@@ -5,7 +5,7 @@ From Coq Require Import ZArith List Bool Lia ZifyBool Arith.
 From Centro Require Import Proofs.LapjvGrid Base.Sx Model.Lapjv Spec.Lapjv Proofs.LapjvCert Proofs.LapjvPhases Proofs.LapjvArr Proofs.LapjvRows
   Proofs.LapjvRt Proofs.LapjvHall Proofs.LapjvBsearch Proofs.LapjvArrExt Proofs.LapjvExtModel Proofs.LapjvAugMarks Proofs.LapjvAugFlip
   Proofs.LapjvAugPred Proofs.LapjvAugRows Proofs.LapjvAugPrice Proofs.LapjvPerm Proofs.LapjvFixedPerm Proofs.LapjvAugStamps
-  Proofs.LapjvAugOpt Proofs.LapjvAugDist Proofs.LapjvAugDistR Proofs.LapjvRefPerm Proofs.LapjvAugDistHypR Proofs.LapjvAugTotalR.
+  Proofs.LapjvAugOpt Proofs.LapjvAugDist Proofs.LapjvAugDistR Proofs.LapjvRefPerm Proofs.LapjvAugDistHypR Proofs.LapjvAugTotalR Proofs.LapjvReservedOpt.
 Import ListNotations.
 Open Scope Z_scope.
 
@@ -299,4 +299,51 @@ Proof.
   intros eps epsr. rewrite lapjv_ref_k0_eps.
   apply (lapjv_ref_fixed_correct_b n tri Hrange Hpairs Hcols HPM 0%nat (or_introl eq_refl) 0 (Z.le_refl 0) (arr_returns_k0 0)).
 Qed.
+
+(* (c) phases 1-3 leave no pending row: ANY rows (one-candidate rows included), ANY number of passes - the result of
+   augmenting row reduction with its reserved (-inf priced) block is already optimal (LapjvReservedOpt) *)
+Theorem ref_correct_nofree : forall epsr k, 0 <= epsr -> arr_nofree_b epsr k n tri = true ->
+  exists x y u v, lapjv_ref Fixed 0 epsr k n tri = Some (x, y, u, v) /\ Optimal n tri x /\ Inverse n x y.
+Proof.
+  intros epsr k Her. unfold arr_nofree_b, lapjv_ref.
+  pose proof (phases123_all_assigned_optimal n tri Hrange Hpairs Hcols HPM epsr (arr_fuel n tri) k) as PO.
+  pose proof (phases123_inv_ext n tri Hrange Hpairs Hcols HPM epsr (arr_fuel n tri) k) as PE. cbn zeta in PO, PE.
+  destruct (reduction_transfer Fixed n (rows_of n tri) (jflat_of (rows_of n tri)) (x_init n (min_i n tri))
+              (one_rows n (min_i n tri)) (repeat (Fin 0) n) (v_init n tri)) as [u1 v1]. cbn [snd] in *.
+  set (arr := match free_rows n (min_i n tri) with
+              | [] => Some (x_init n (min_i n tri), y_init n (x_init n (min_i n tri)), v1, free_rows n (min_i n tri))
+              | _ => arr_passes k (arr_fuel n tri) (Fin 0) (Fin epsr) n (rows_of n tri)
+                       (x_init n (min_i n tri), y_init n (x_init n (min_i n tri)), v1, free_rows n (min_i n tri))
+              end) in *.
+  destruct arr as [[[[x2 y2] v2] ii]|] eqn:EA; [|discriminate].
+  destruct ii as [|i0 ii]; [|discriminate]. intros _.
+  destruct (PO x2 y2 v2 Her eq_refl) as [IV OPT].
+  destruct (PE x2 y2 v2 [] Her eq_refl) as [[Lx [Ly [_ [SL _]]]] _].
+  cbn [fold_left m_x m_y m_v].
+  destruct (final_u_defined n tri v2 Hpairs x2 Lx) as [uf [EU _]].
+  { intros i Hi. destruct IV as [_ [_ [F1 _]]]. destruct (F1 i Hi) as [Hx Hy].
+    assert (Gx : getn y2 (col x2 i) n = i) by (unfold getn; rewrite (nth_indep _ n 0%nat) by lia; exact Hy).
+    destruct (SL (col x2 i) i Hx Gx ltac:(lia)) as [_ [_ [c0 [Hc0 _]]]].
+    exists (Fin c0). rewrite (nth_indep _ n 0%nat) by lia. exact Hc0. }
+  rewrite EU. exists x2, y2, uf, v2. auto.
+Qed.
 End Instances.
+
+(* ---------------------------------------------------------------- the model's fuel for augmenting row reduction is NOT adequate
+   on integer cost grids: three rows fight over two cheap columns against alternatives of cost ~10^4; the price war takes
+   ~10^4 retries (each lowers a price by the grid step), the model's fuel is 4000 + 40 (n^2 + |tri|) = 5160.  The REAL code
+   has no bound on the retries, returns on this input, and its answer is optimal (replayed, reports/C01.md round 13): this is
+   a limitation of the model, not a defect of the code. *)
+Definition fuel_tri : list triple :=
+  [T 0 0 (10000 * 1073741824); T 0 1 (1 * 1073741824); T 0 2 (10001 * 1073741824); T 0 3 (10003 * 1073741824); T 1 0 (10003 * 1073741824); T 1 1 (0 * 1073741824); T 1 2 (10002 * 1073741824); T 1 3 (10002 * 1073741824); T 2 1 (0 * 1073741824); T 2 2 (10001 * 1073741824); T 3 0 (1 * 1073741824); T 3 1 (1 * 1073741824); T 3 3 (2 * 1073741824)].
+
+Theorem arr_fuel_not_total :
+  exists n tri k, wf n tri /\ has_PM n tri /\ (forall t, In t tri -> (1073741824 | t_c t)) /\ arr_returns_b 16 k n tri = false.
+Proof.
+  exists 4%nat, fuel_tri, 1%nat. split; [vm_compute; reflexivity|]. split; [|split].
+  - apply (LapjvRefute.wf_has_pm_by _ _ [0; 1; 2; 3]%nat [0; 1; 2; 3]%nat). vm_compute. reflexivity.
+  - intros t Ht. unfold fuel_tri in Ht. cbn [In] in Ht.
+    repeat (destruct Ht as [<-|Ht]; [eexists; reflexivity|]). destruct Ht.
+  - vm_compute. reflexivity.
+Qed.
+
